@@ -133,6 +133,9 @@ impl TreeSys for PrefixSingle {
     fn max_len(&self) -> usize {
         self.max_len
     }
+    fn name(&self) -> String {
+        self.name.clone()
+    }
     fn visit(&self, word: &[u8], parent: Option<&Memo>, ctx: &mut Ctx) -> Memo {
         self.check(word, parent, ctx)
     }
@@ -170,6 +173,9 @@ impl TreeSys for PrefixPairs {
     }
     fn max_len(&self) -> usize {
         self.max_len
+    }
+    fn name(&self) -> String {
+        self.name.clone()
     }
     fn visit(&self, word: &[u8], parent: Option<&Memo>, ctx: &mut Ctx) -> Memo {
         let (a, b) = self.split(word);
@@ -243,6 +249,9 @@ impl TreeSys for PrefixMaps {
     fn max_len(&self) -> usize {
         self.max_len
     }
+    fn name(&self) -> String {
+        self.name.clone()
+    }
     fn visit(&self, word: &[u8], _p: Option<&()>, ctx: &mut Ctx) {
         let x = decode(word, &self.alpha);
         let len = x.len();
@@ -288,7 +297,8 @@ impl TreeSys for PrefixMaps {
 fn window_only(run: &Run, total: &mut Ctx) {
     let name = "window-only";
     let alpha_w: Vec<X> = vec![None, Some(-2.0), Some(0.0), Some(1.0), Some(3.0)];
-    let alpha_a: Vec<X> = vec![Some(-2.0), Some(0.0), Some(1.0), Some(3.0), Some(1.5)];
+    // pre-histories also contain nulls: a null that left the window must leave no trace either
+    let alpha_a: Vec<X> = vec![Some(-2.0), Some(0.0), Some(1.0), Some(3.0), None];
     let max_w = run.pick(3, 4);
     let max_a = run.pick(2, 3);
     let wins = all_words_upto(alpha_w.len(), max_w);
@@ -347,6 +357,72 @@ fn window_only(run: &Run, total: &mut Ctx) {
     total.merge(c);
 }
 
+/// (b) for the two-series family: window pair word W, pre-history pair word A
+fn window_only_pairs(run: &Run, total: &mut Ctx) {
+    let name = "window-only-pairs";
+    let alpha: Vec<X> = vec![None, Some(0.0), Some(1.0), Some(3.0)];
+    let k = alpha.len();
+    let max_w = run.pick(3, 3);
+    let max_a = run.pick(1, 2);
+    let wins = all_words_upto(k * k, max_w);
+    let pres = all_words_upto(k * k, max_a);
+    let split = |w: &[u8]| -> (Vec<X>, Vec<X>) { (w.iter().map(|s| alpha[*s as usize / k]).collect(), w.iter().map(|s| alpha[*s as usize % k]).collect()) };
+    let fns = all2();
+    let c = par_items(&wins, run.threads, |ww, ctx| {
+        let w = ww.len();
+        if w < 2 {
+            return;
+        }
+        let (wa, wb) = split(ww);
+        ctx.states += 1;
+        ctx.fam(name).states += 1;
+        ctx.nontrivial(name, hash_bytes(ww));
+        for &f in &fns {
+            for mp in [0, 2, w] {
+                let base = match run_v2::<f64, f64, f64>(f, &wa, &wb, w, Some(mp), Path::Ret) {
+                    Some(Outcome::Ok(c)) => c,
+                    _ => continue,
+                };
+                let b_last = base.last().unwrap().clone();
+                for pre in &pres {
+                    if pre.is_empty() {
+                        continue;
+                    }
+                    let (mut xa, mut xb) = split(pre);
+                    xa.extend(wa.iter().cloned());
+                    xb.extend(wb.iter().cloned());
+                    ctx.transitions += 1;
+                    let got = match run_v2::<f64, f64, f64>(f, &xa, &xb, w, Some(mp), Path::Ret) {
+                        Some(Outcome::Ok(c)) => c,
+                        _ => continue,
+                    };
+                    let g_last = got.last().unwrap();
+                    ctx.eval(name, g_last.hash64());
+                    // skewness of the rounding noise left by an exact fit is arbitrary (DESIGN 5.6)
+                    if f == R2::ResidSkew {
+                        let m = mc_ref::roll::expect2(f, &wa, &wb, w, Some(mp));
+                        if m.any {
+                            continue;
+                        }
+                    }
+                    if !tol_eq(g_last, &b_last) {
+                        ctx.violation(Violation {
+                            entry: format!("window-only:{}", r2_name(f)),
+                            finding: None,
+                            size: xa.len() * 100 + w,
+                            case: json!({"family": name, "window_first": json_word(&wa), "window_second": json_word(&wb), "pre_first": json_word(&xa[..pre.len()]), "pre_second": json_word(&xb[..pre.len()]), "w": w, "mp": mp}),
+                            expected: format!("last output as on the window alone: {}", b_last.show()),
+                            got: g_last.show(),
+                        });
+                    }
+                }
+            }
+        }
+        ctx.traces += 1;
+    });
+    total.merge(c);
+}
+
 fn main() {
     let run = Run::from_args("C06");
     let a5 = alphabet5(run.seed);
@@ -389,6 +465,7 @@ fn main() {
                 pairs.visit(&word, Some(&pm), &mut ctx);
             }
             "prefix-maps" => maps.visit(&word, None, &mut ctx),
+            "window-only-pairs" => window_only_pairs(&run, &mut ctx),
             _ => window_only(&run, &mut ctx),
         }
         std::process::exit(finish_replay(&run, &stored, ctx));
@@ -398,8 +475,9 @@ fn main() {
     total.merge(explore_tree(&pairs, run.threads));
     total.merge(explore_tree(&maps, run.threads));
     window_only(&run, &mut total);
+    window_only_pairs(&run, &mut total);
     let meta = Meta {
-        rule: "(a) prefix law on every edge parent->child of the history trees (single series, null-free plain family, pairs, positive-lag shift/vshift/vdiff/vpct_change with n in 0..=len+2 and every fill): f(child)[..len-1] == f(parent) bit for bit, for every window and min_periods; by induction every cut point. (b) window-only dependence: for every window word W (|W|<=w_max) and every finite pre-history A (|A|<=a_max): last output of f(A++W) equals that of f(W) (exact for min/max/arg/rank, 1e-9 otherwise). Non-trivial = word with a non-null element; each edge compares the parent's memoised outputs with the child's.".into(),
+        rule: "(a) prefix law on every edge parent->child of the history trees (single series, null-free plain family, pairs, positive-lag shift/vshift/vdiff/vpct_change with n in 0..=len+2 and every fill): f(child)[..len-1] == f(parent) bit for bit, for every window and min_periods; by induction every cut point. (b) window-only dependence: for every window word W (|W|<=w_max) and every pre-history A (|A|<=a_max, finite values and nulls), also for the two-series family over pair words: last output of f(A++W) equals that of f(W) (exact for min/max/arg/rank, 1e-9 otherwise). Non-trivial = word with a non-null element; each edge compares the parent's memoised outputs with the child's.".into(),
         bounds: json!({
             "prefix-valid": {"alphabet": json_word(&single.alpha), "L": single.max_len, "types": single.tys.iter().map(|t| t.name.clone()).collect::<Vec<_>>()},
             "prefix-plain": {"alphabet": json_word(&plain.alpha), "L": plain.max_len},
